@@ -242,6 +242,17 @@ TrialSetMemo(aid, ok) ==
      ELSE tgt' = tgt /\ own' = -1 /\ phase' = "setfailed" /\ seenNone' = TRUE /\ faultSeen' = TRUE
   /\ UNCHANGED <<np, acc, aid0, nevals, patience, stats, statFault>>
 
+\* NAMED DEVIATION "partial Jacobian": a derivative failed, yet the optimizer was handed a Jacobian and
+\* goes on with a trial step (C03 / C09 forbid it: no Jacobian rather than a partially filled one)
+TrialSetAfterFailedJac(aid, ok) ==
+  /\ phase = "jacfailed"
+  /\ nfev' = nfev + 1
+  /\ pend' = {}
+  /\ IF ok
+     THEN tgt' = aid /\ own' = own /\ phase' = "eval" /\ UNCHANGED <<seenNone, faultSeen>>
+     ELSE tgt' = tgt /\ own' = -1 /\ phase' = "setfailed" /\ seenNone' = TRUE /\ faultSeen' = TRUE
+  /\ UNCHANGED <<np, acc, aid0, nevals, patience, stats, statFault>>
+
 \* NAMED DEVIATION "update without evaluation" inside a fit (see CSetSkip): the optimizer is handed the
 \* cached residuals and decides on them
 TrialSetSkip(aid, dec) ==
